@@ -138,7 +138,7 @@ func (r *Run) sinkOpsOf(fd *FuncDecl) []string {
 }
 
 func (r *Run) sinkOpsRec(fd *FuncDecl, onPath map[*FuncDecl]bool, depth int) []string {
-	if onPath[fd] || depth > 4 {
+	if onPath[fd] || depth > 8 {
 		return nil
 	}
 	onPath[fd] = true
